@@ -167,21 +167,9 @@ func adversarial(quick bool) []cell {
 		add("annotation:set", an, fmt.Sprintf("struct S { 1: optional set<string> (%s) a; 2: required set<binary> (%s) b }\ntypedef set<i32> (%s) T", an, an, an))
 		add("annotation:list", an, fmt.Sprintf("struct S { 1: optional list<string> (%s) a }", an))
 	}
-	if quick {
-		// quick: every third hostile name cell (all collision/annotation cells kept)
-		var q []cell
-		n := 0
-		for _, c := range out {
-			if strings.HasPrefix(c.Class, "name:") {
-				n++
-				if n%3 != 0 {
-					continue
-				}
-			}
-			q = append(q, c)
-		}
-		return q
-	}
+	// (both tiers run every cell: sampling the hostile-name cells made the quick verdict
+	// depend on which third happened to be chosen)
+	_ = quick
 	return out
 }
 
